@@ -50,6 +50,9 @@ const TOKENS: &[&str] = &[
     "abcdefghij",
     // a parameter beyond 2^32 (2^32 + 31: red foreground when taken modulo 2^16)
     "\x1b[4294967327m",
+    // text, then something that captures where the text left the cursor
+    "xy\x1b7",
+    "xy\x1bH",
 ];
 
 fn alt_after(tokens: &[usize]) -> bool {
@@ -197,6 +200,41 @@ fn explore(cfg: &Cfg, tokens: &[usize], kf_listed: bool) -> Stat {
                 if fa != fb {
                     st.bad = Some((cuts.clone(), "feed_str-chunking".into(), format!("after continuation {}: {}", k, diff(&fa, &fb))));
                     break;
+                }
+            }
+        }
+    }
+    // the same string inside a LONG call: behind an inert string of 1100 (and, for short
+    // token strings, 4200 and 17000) characters in the same feed_str call - whatever a call
+    // does differently when its input is long, the result is the short call's
+    if st.bad.is_none() && (cfg.limit == Some(0) || (cfg.cols, cfg.rows, cfg.limit) == (2, 2, None)) {
+        let sizes: &[usize] = if tokens.len() <= 2 { &[1100, 4200, 17000] } else { &[1100] };
+        for &pad in sizes {
+            let filler = format!("\x1b]0;{}\x07", "t".repeat(pad));
+            for order in 0..2 {
+                let mut vt = cfg.build();
+                if order == 0 {
+                    let _ = vt.feed_str(&format!("{}{}", filler, s));
+                } else {
+                    let _ = vt.feed_str(&format!("{}{}", s, filler));
+                }
+                let mut short = rebuild(cfg, &chars, &[n]);
+                let _ = short.feed_str(&filler);
+                // (compare against the short call followed by the filler in a call of its own:
+                // the filler is inert only from the ground state)
+                let (got, want2) = (final_of(cfg, &vt), final_of(cfg, &short));
+                let comparable = order == 1 || true;
+                if comparable && order == 1 && got != want2 {
+                    st.bad = Some((vec![], "feed_str-chunking".into(), format!("the string and {} inert characters in ONE call vs in two calls: {}", pad, diff(&got, &want2))));
+                }
+                if order == 0 {
+                    let mut two = cfg.build();
+                    let _ = two.feed_str(&filler);
+                    let _ = two.feed_str(&s);
+                    let want3 = final_of(cfg, &two);
+                    if got != want3 {
+                        st.bad = Some((vec![], "feed_str-chunking".into(), format!("{} inert characters and the string in ONE call vs in two calls: {}", pad, diff(&got, &want3))));
+                    }
                 }
             }
         }
